@@ -1443,4 +1443,90 @@ theorem mpf_cmp_limb1_spec (u : F) (hu : u.wf) (vv : Nat) (hv0 : 0 < vv) (hvB : 
             have : lo = 0 := by by_contra h; exact c3 (hstrip.mpr h)
             subst this; simp [sgn_zero]
 
+/-- floor |f| -/
+def F.truncNat (f : F) : Nat :=
+  if f.lowExp ≥ 0 then val f.d * B ^ f.lowExp.toNat else val f.d / B ^ (-f.lowExp).toNat
+/-- f truncated toward zero to an integer -/
+def F.truncInt (f : F) : Int := if f.size < 0 then -(f.truncNat : Int) else (f.truncNat : Int)
+
+theorem val_div_mod : ∀ (l : List Nat) (k : Nat), Limbs l → (val l / B ^ k) % B = l.getD k 0
+  | [], k, _ => by simp
+  | x :: xs, 0, h => by
+    have hx := (Limbs_cons.mp h).1
+    simp only [pow_zero, Nat.div_one, val_cons, List.getD_cons_zero]
+    rw [Nat.add_mul_mod_self_left, Nat.mod_eq_of_lt hx]
+  | x :: xs, k + 1, h => by
+    have ⟨hx, hxs⟩ := Limbs_cons.mp h
+    have : val (x :: xs) / B ^ (k + 1) = val xs / B ^ k := by
+      rw [pow_succ, Nat.mul_comm, ← Nat.div_div_eq_div_mul, val_cons, Nat.add_mul_div_left _ _ B_pos,
+        Nat.div_eq_of_lt hx, Nat.zero_add]
+    rw [this, List.getD_cons_succ]; exact val_div_mod xs k hxs
+
+theorem F.trunc_facts {f : F} (h : f.wf) :
+    (f.exp ≤ 0 → f.truncNat = 0) ∧
+    (f.exp = 1 → f.truncNat = f.d.getD (f.size.natAbs - 1) 0 ∧ 1 ≤ f.truncNat ∧ f.truncNat < B) ∧
+    (2 ≤ f.exp → B ≤ f.truncNat) ∧
+    (0 < f.exp → f.truncNat % B = mpf_intLimb f) := by
+  obtain ⟨u0, u1, u2⟩ := F.wf_bounds h
+  have ul := h.1
+  have hz := h.2.2.2
+  refine ⟨fun he => ?_, fun he => ?_, fun he => ?_, fun he => ?_⟩
+  · unfold F.truncNat F.lowExp
+    by_cases s0 : f.size = 0
+    · rw [u0 s0]; simp
+    · rw [if_neg (by omega)]
+      apply Nat.div_eq_of_lt
+      exact lt_of_lt_of_le u2 (pow_le_pow_B (by omega))
+  · have s0 : f.size ≠ 0 := fun e => by have := hz e; omega
+    have hne : f.d ≠ [] := by intro e; rw [e] at ul; simp at ul; omega
+    obtain ⟨lo, e, b⟩ := val_top_split f.d h.2.1 hne
+    have tnz := top_ne_zero hne h.2.2.1
+    have tlt := top_lt_B h.2.1 (f.d.length - 1)
+    rw [ul] at e b tnz tlt
+    have key : f.truncNat = f.d.getD (f.size.natAbs - 1) 0 := by
+      unfold F.truncNat F.lowExp
+      by_cases n1 : f.size.natAbs = 1
+      · rw [if_pos (by omega)]
+        rw [n1] at e b ⊢
+        simp only [Nat.sub_self, pow_zero, Nat.lt_one_iff] at b
+        have : (f.exp - ((1 : Nat) : Int)).toNat = 0 := by omega
+        rw [this, pow_zero, Nat.mul_one, e, b]; simp
+      · rw [if_neg (by omega)]
+        have : (-(f.exp - (f.size.natAbs : Int))).toNat = f.size.natAbs - 1 := by omega
+        rw [this, e, Nat.add_mul_div_left _ _ (Bpow_pos _), Nat.div_eq_of_lt b, Nat.zero_add]
+    rw [key]; exact ⟨rfl, by omega, tlt⟩
+  · have s0 : f.size ≠ 0 := fun e => by have := hz e; omega
+    have hu1 := u1 s0
+    unfold F.truncNat F.lowExp
+    by_cases c : f.exp - (f.size.natAbs : Int) ≥ 0
+    · rw [if_pos c]
+      calc B = B ^ 1 := (pow_one B).symm
+        _ ≤ B ^ ((f.size.natAbs - 1) + (f.exp - (f.size.natAbs : Int)).toNat) := pow_le_pow_B (by omega)
+        _ = B ^ (f.size.natAbs - 1) * B ^ (f.exp - (f.size.natAbs : Int)).toNat := by rw [pow_add]
+        _ ≤ val f.d * B ^ (f.exp - (f.size.natAbs : Int)).toNat := Nat.mul_le_mul_right _ hu1
+    · rw [if_neg c, Nat.le_div_iff_mul_le (Bpow_pos _)]
+      calc B * B ^ (-(f.exp - (f.size.natAbs : Int))).toNat = B ^ (1 + (-(f.exp - (f.size.natAbs : Int))).toNat) := by
+            rw [pow_add, pow_one]
+        _ ≤ B ^ (f.size.natAbs - 1) := pow_le_pow_B (by omega)
+        _ ≤ val f.d := hu1
+  · unfold F.truncNat F.lowExp mpf_intLimb
+    dsimp only
+    by_cases c : (f.size.natAbs : Int) ≥ f.exp
+    · rw [if_pos c]
+      have : val f.d / B ^ ((f.size.natAbs : Int) - f.exp).toNat % B = f.d.getD ((f.size.natAbs : Int) - f.exp).toNat 0 :=
+        val_div_mod f.d _ h.2.1
+      by_cases c0 : f.exp - (f.size.natAbs : Int) ≥ 0
+      · rw [if_pos c0]
+        have e0 : (f.exp - (f.size.natAbs : Int)).toNat = 0 := by omega
+        have e1 : ((f.size.natAbs : Int) - f.exp).toNat = 0 := by omega
+        rw [e1] at this
+        rw [e0, e1, pow_zero, Nat.mul_one]
+        simpa using this
+      · rw [if_neg c0]
+        have e1 : (-(f.exp - (f.size.natAbs : Int))).toNat = ((f.size.natAbs : Int) - f.exp).toNat := by omega
+        rw [e1]; exact this
+    · rw [if_neg c, if_pos (by omega)]
+      have : (f.exp - (f.size.natAbs : Int)).toNat = ((f.exp - (f.size.natAbs : Int)).toNat - 1) + 1 := by omega
+      rw [this, pow_succ, ← Nat.mul_assoc]; exact Nat.mul_mod_left _ _
+
 end Mpir.Conv
